@@ -103,4 +103,151 @@ theorem setcookie_pair (c : SetCookie.Cookie) :
   unfold SetCookie.build
   simp only [List.append_assoc]
 
+/-! ### the whole jar -/
 end C11
+namespace Ohkami.Cookie
+open Ohkami Ohkami.Serde Ohkami.Serde.Concrete C11
+
+/-- the `Cookie` header a client sends for a jar of text cookies: `name=percent-encoded value` joined by `; ` -/
+def tailEnc : List (Bytes × Bytes) → Bytes
+  | [] => []
+  | (n, v) :: rest => [SEMI, SP] ++ (n ++ EQ :: (Percent.encode v ++ tailEnc rest))
+
+def encodeJar : List (Bytes × Bytes) → Bytes
+  | [] => []
+  | (n, v) :: rest => n ++ EQ :: (Percent.encode v ++ tailEnc rest)
+
+theorem tailEnc_head (jar : List (Bytes × Bytes)) : tailEnc jar = [] ∨ (tailEnc jar).head? = some SEMI := by
+  cases jar with
+  | nil => left; rfl
+  | cons p rest => obtain ⟨n, v⟩ := p; right; rfl
+
+/-- a cookie of the jar as the struct decoder must deliver it -/
+def asField (nv : Bytes × Bytes) : Bytes × Value := (nv.1, .str nv.2)
+
+structure JarOK (fields : List (Bytes × Ty × Bool)) (jar : List (Bytes × Bytes)) : Prop where
+  names_token : ∀ nv ∈ jar, nv.1 ≠ [] ∧ ∀ b ∈ nv.1, badNameByte b = false
+  values_utf8 : ∀ nv ∈ jar, Http.validUtf8 nv.2 = true
+  declared : ∀ nv ∈ jar, lookupField fields nv.1 = some .string
+  distinct : (jar.map (·.1)).Nodup
+
+/-- one cookie `name=value` in front of the rest of the header is read into the `seen` list -/
+theorem pairs_step (fields : List (Bytes × Ty × Bool)) (fuel : Nat) (n v : Bytes) (rest : List (Bytes × Bytes)) (seen : List (Bytes × Value))
+    (hn : n ≠ [] ∧ ∀ b ∈ n, badNameByte b = false) (hv : Http.validUtf8 v = true) (hd : lookupField fields n = some .string)
+    (hs : seen.find? (·.1 = n) = none) (first : Bool) :
+    pairs fields (fuel + 1) first ((if first then [] else [SEMI, SP]) ++ (n ++ EQ :: (Percent.encode v ++ tailEnc rest))) seen =
+      pairs fields fuel false (tailEnc rest) (seen ++ [(n, .str v)]) := by
+  obtain ⟨b0, n', hn0⟩ : ∃ b0 n', n = b0 :: n' := by
+    cases n with
+    | nil => exact absurd rfl hn.1
+    | cons a t => exact ⟨a, t, rfl⟩
+  have hname := name_roundtrip n (Percent.encode v ++ tailEnc rest) hn.1 hn.2
+  obtain ⟨bw, hval⟩ := value_roundtrip_pct v (tailEnc rest) hv (tailEnc_head rest)
+  have hfv : fieldValue 8 .string (Percent.encode v ++ tailEnc rest) = .ok (.str v, tailEnc rest) := by
+    simp only [fieldValue, hval]
+  conv => lhs; unfold pairs
+  cases first with
+  | true =>
+    simp only [if_true, List.nil_append]
+    have hne : (n ++ EQ :: (Percent.encode v ++ tailEnc rest)).isEmpty = false := by rw [hn0]; rfl
+    simp only [hne, Bool.false_eq_true, if_false, hname, bne_self_eq_false, hd, hs, Option.isSome_none, hfv]
+  | false =>
+    simp only [Bool.false_eq_true, if_false]
+    have hne : ([SEMI, SP] ++ (n ++ EQ :: (Percent.encode v ++ tailEnc rest))).isEmpty = false := rfl
+    simp only [Bool.false_eq_true, if_false, List.cons_append, List.nil_append, beq_self_eq_true, Bool.and_self, if_true, hname,
+      bne_self_eq_false, hd, hs, Option.isSome_none, hfv]
+    rfl
+
+theorem find_none_append (seen : List (Bytes × Value)) (n m : Bytes) (v : Value) (h : seen.find? (·.1 = m) = none) (hne : n ≠ m) :
+    (seen ++ [(n, v)]).find? (·.1 = m) = none := by
+  rw [List.find?_append, h]
+  simp [hne]
+
+theorem pairs_tail (fields : List (Bytes × Ty × Bool)) : ∀ (jar : List (Bytes × Bytes)) (seen : List (Bytes × Value)) (fuel : Nat),
+    JarOK fields jar → (∀ nv ∈ jar, seen.find? (·.1 = nv.1) = none) → jar.length < fuel →
+    pairs fields fuel false (tailEnc jar) seen = .ok (seen ++ jar.map asField) := by
+  intro jar
+  induction jar with
+  | nil =>
+    intro seen fuel _ _ hf
+    cases fuel with
+    | zero => simp at hf
+    | succ f => simp [pairs, tailEnc]
+  | cons p rest ih =>
+    intro seen fuel hok hseen hf
+    obtain ⟨n, v⟩ := p
+    cases fuel with
+    | zero => simp at hf
+    | succ f =>
+      have hn := hok.names_token (n, v) (List.mem_cons_self ..)
+      have hv := hok.values_utf8 (n, v) (List.mem_cons_self ..)
+      have hd := hok.declared (n, v) (List.mem_cons_self ..)
+      have hs := hseen (n, v) (List.mem_cons_self ..)
+      have step := pairs_step fields f n v rest seen hn hv hd hs false
+      simp only [Bool.false_eq_true, if_false] at step
+      have : tailEnc ((n, v) :: rest) = [SEMI, SP] ++ (n ++ EQ :: (Percent.encode v ++ tailEnc rest)) := rfl
+      rw [this, step]
+      have hnd := hok.distinct
+      simp only [List.map_cons, List.nodup_cons] at hnd
+      have hok' : JarOK fields rest := ⟨fun x hx => hok.names_token x (List.mem_cons_of_mem _ hx), fun x hx => hok.values_utf8 x (List.mem_cons_of_mem _ hx),
+        fun x hx => hok.declared x (List.mem_cons_of_mem _ hx), hnd.2⟩
+      have hseen' : ∀ nv ∈ rest, (seen ++ [(n, Value.str v)]).find? (·.1 = nv.1) = none := by
+        intro nv hnv
+        apply find_none_append _ _ _ _ (hseen nv (List.mem_cons_of_mem _ hnv))
+        intro he
+        exact hnd.1 (by rw [he]; exact List.mem_map.mpr ⟨nv, hnv, rfl⟩)
+      rw [ih (seen ++ [(n, Value.str v)]) f hok' hseen' (by simp at hf; omega)]
+      simp [asField]
+
+/-- **The whole jar survives the trip.**  For every jar of text cookies with distinct token names declared as `String` fields and
+arbitrary Unicode values, the header a client sends (`name=percent-encoded value` joined by `; `) is read by the struct decoder's
+pair loop into exactly those cookies, in order. -/
+theorem jar_roundtrip (fields : List (Bytes × Ty × Bool)) (jar : List (Bytes × Bytes)) (hok : JarOK fields jar) :
+    pairs fields ((encodeJar jar).length + 2) true (encodeJar jar) [] = .ok (jar.map asField) := by
+  cases jar with
+  | nil => simp [pairs, encodeJar]
+  | cons p rest =>
+    obtain ⟨n, v⟩ := p
+    have hn := hok.names_token (n, v) (List.mem_cons_self ..)
+    have hv := hok.values_utf8 (n, v) (List.mem_cons_self ..)
+    have hd := hok.declared (n, v) (List.mem_cons_self ..)
+    have step := pairs_step fields ((n ++ EQ :: (Percent.encode v ++ tailEnc rest)).length + 1) n v rest [] hn hv hd rfl true
+    simp only [if_true, List.nil_append] at step
+    have : encodeJar ((n, v) :: rest) = n ++ EQ :: (Percent.encode v ++ tailEnc rest) := rfl
+    rw [this, show (n ++ EQ :: (Percent.encode v ++ tailEnc rest)).length + 2 = ((n ++ EQ :: (Percent.encode v ++ tailEnc rest)).length + 1) + 1 from rfl, step]
+    have hnd := hok.distinct
+    simp only [List.map_cons, List.nodup_cons] at hnd
+    have hok' : JarOK fields rest := ⟨fun x hx => hok.names_token x (List.mem_cons_of_mem _ hx), fun x hx => hok.values_utf8 x (List.mem_cons_of_mem _ hx),
+      fun x hx => hok.declared x (List.mem_cons_of_mem _ hx), hnd.2⟩
+    have hseen' : ∀ nv ∈ rest, ([(n, Value.str v)] : List (Bytes × Value)).find? (·.1 = nv.1) = none := by
+      intro nv hnv
+      have hne : n ≠ nv.1 := fun he => hnd.1 (by rw [he]; exact List.mem_map.mpr ⟨nv, hnv, rfl⟩)
+      simp [hne]
+    -- the header is at least as long as the number of cookies left
+    have hlen : rest.length < (n ++ EQ :: (Percent.encode v ++ tailEnc rest)).length + 1 := by
+      have : ∀ (l : List (Bytes × Bytes)), l.length ≤ (tailEnc l).length := by
+        intro l
+        induction l with
+        | nil => simp
+        | cons q qs ihq => obtain ⟨a, b⟩ := q; simp only [tailEnc, List.length_append, List.length_cons]; omega
+      have := this rest
+      simp only [List.length_append, List.length_cons]; omega
+    rw [pairs_tail fields rest _ _ hok' hseen' hlen]
+    simp [asField]
+
+
+/-- and `serde_cookie::from_str` delivers those cookies in the declared fields (absent `Option` fields as `None`, absent defaulted ones by
+their default, a missing required one as an error) -/
+theorem fromStr_jar (fields : List (Bytes × Ty × Bool)) (jar : List (Bytes × Bytes)) (hok : JarOK fields jar) :
+    fromStr fields (encodeJar jar) = (match fillMissing fields (jar.map asField) with | some fs => .ok fs | none => .err) := by
+  unfold fromStr
+  rw [jar_roundtrip fields jar hok]
+  cases h : fillMissing fields (jar.map asField) <;> simp [h]
+
+-- non-vacuity: a two-cookie jar over a struct { sid: String, lang: String }
+private def flds : List (Bytes × Ty × Bool) := [([115, 105, 100], .string, false), ([108, 97, 110, 103], .string, false)]
+private def jar2 : List (Bytes × Bytes) := [([108, 97, 110, 103], [0xE6, 0x97, 0xA5]), ([115, 105, 100], [97, 32, 59])]
+example : JarOK flds jar2 := ⟨by intro nv h; simp [jar2] at h; rcases h with rfl | rfl <;> decide, by intro nv h; simp [jar2] at h; rcases h with rfl | rfl <;> decide,
+  by intro nv h; simp [jar2] at h; rcases h with rfl | rfl <;> rfl, by decide⟩
+
+end Ohkami.Cookie
